@@ -406,44 +406,75 @@ def check_keyed_delete(cx: Cx, fn_q: str, loc, container: Term, key: Term, rule=
         cx.inconclusive(rule, fn.qualname, 'no success path found', where=cx.where(fn), function=fn.qualname)
 
 
+def restrict_term(t: Term, F: Formula) -> Term:
+    """The value of t on executions that satisfy F: conditional terms whose condition F decides are replaced by the selected
+    arm, d.get(k) by the entry / the default when F decides the membership."""
+    from sa.terms import IfT
+    t0 = strip_versions(t) if t is not None else t
+    for _ in range(6):
+        if isinstance(t0, IfT):
+            c = strip_versions(t0.cond)
+            if implies(F, c) is None:
+                t0 = strip_versions(t0.a)
+                continue
+            if implies(F, f_not(c)) is None:
+                t0 = strip_versions(t0.b)
+                continue
+        if isinstance(t0, App) and t0.fn == '.get' and len(t0.args) in (2, 3) and not t0.kw:
+            m = AIn(t0.args[1], t0.args[0])
+            if implies(F, m) is None:
+                t0 = Sub(t0.args[0], t0.args[1])
+                continue
+            if implies(F, f_not(m)) is None:
+                t0 = t0.args[2] if len(t0.args) == 3 else Const(None)
+                continue
+        break
+    return t0
+
+
 def check_lookup(cx: Cx, fn_q: str, container: Term, key: Term, exc: str, throw: str = 'throw_error', rule='R-GUARD'):
-    """get-style accessor: present -> container[key]; absent and throw -> exc; absent and not throw -> None."""
+    """get-style accessor: present -> container[key]; absent and throw -> exc; absent and not throw -> None.  Every path is
+    examined in each of the three cases it can occur in (its own condition need not name the case: `return d[k] if k in d
+    else None` is one path that serves two)."""
     fn = cx.fn(fn_q)
     present = AIn(key, container)
     t = ATruthy(Sym(throw))
+    cases = [('present', present), ('absent-throw', f_and(f_not(present), t)), ('absent-quiet', f_and(f_not(present), f_not(t)))]
     ok = True
     seen = set()
     for p in cx.walker.paths(fn, WalkOptions(unroll=1)):
-        c = p.cond
-        if implies(c, present) is None:
-            seen.add('present')
-            v = p.last.data.get('value') if p.end == 'return' else None
-            if not (isinstance(v, Sub) and strip_versions(v.base) == container and v.index == key):
-                cx.violation(rule, fn.qualname, 'present-returns-the-entry',
-                             f"{fn.qualname}: on the present branch returns {v!r}, not the entry for the key",
-                             where=cx.where(fn, p.last.line if p.last else None))
-                ok = False
-        elif implies(c, f_not(present)) is None:
-            if implies(c, t) is None:
-                seen.add('absent-throw')
-                if not (p.end == 'raise' and p.last.data.get('exc') == exc):
-                    cx.violation(rule, fn.qualname, f"absent-and-strict-raises-{exc}",
-                                 f"{fn.qualname}: absent key with {throw} set must raise {exc}", where=cx.where(fn))
+        c = strip_versions(p.cond)
+        for cname, case in cases:
+            if implies(c, f_not(case)) is None:
+                continue            # this path cannot occur in this case
+            if cname == 'absent-throw' and implies(c, f_not(present)) is not None and implies(c, present) is None:
+                continue
+            F = f_and(c, case)
+            where = cx.where(fn, p.last.line if p.last else None)
+            if cname == 'present':
+                v = restrict_term(p.last.data.get('value'), F) if p.end == 'return' else None
+                if p.end == 'return' and isinstance(v, Sub) and strip_versions(v.base) == container and v.index == key:
+                    seen.add(cname)
+                else:
+                    cx.violation(rule, fn.qualname, 'present-returns-the-entry',
+                                 f"{fn.qualname}: with the key present {'returns ' + repr(v) if p.end == 'return' else 'ends in ' + p.end}, "
+                                 f"not the entry for the key", where=where)
                     ok = False
-            elif implies(c, f_not(t)) is None:
-                seen.add('absent-quiet')
-                v = p.last.data.get('value') if p.end == 'return' else (Const(None) if p.end == 'fall' else '?')
-                if v != Const(None):
-                    cx.violation(rule, fn.qualname, 'absent-and-lenient-returns-None',
-                                 f"{fn.qualname}: absent key without {throw} must return None, found {v!r} / {p.end}",
-                                 where=cx.where(fn, p.last.line if p.last else None))
+            elif cname == 'absent-throw':
+                if p.end == 'raise' and p.last.data.get('exc') == exc:
+                    seen.add(cname)
+                else:
+                    cx.violation(rule, fn.qualname, f"absent-and-strict-raises-{exc}",
+                                 f"{fn.qualname}: absent key with {throw} set must raise {exc} (path ends in {p.end})", where=where)
                     ok = False
             else:
-                cx.inconclusive(rule, fn.qualname, f"absent branch does not decide on {throw}", where=cx.where(fn), function=fn.qualname)
-                ok = False
-        else:
-            cx.inconclusive(rule, fn.qualname, f"a path does not test {present!r}", where=cx.where(fn), function=fn.qualname)
-            ok = False
+                v = restrict_term(p.last.data.get('value'), F) if p.end == 'return' else (Const(None) if p.end == 'fall' else '?')
+                if v == Const(None):
+                    seen.add(cname)
+                else:
+                    cx.violation(rule, fn.qualname, 'absent-and-lenient-returns-None',
+                                 f"{fn.qualname}: absent key without {throw} must return None, found {v!r} / {p.end}", where=where)
+                    ok = False
     if ok and seen == {'present', 'absent-throw', 'absent-quiet'}:
         cx.ok(rule, f"{fn.qualname}: entry / {exc} / None on the three branches", where=cx.where(fn), function=fn.qualname)
     elif ok:
